@@ -1,4 +1,4 @@
-import CprocVerif.Lemmas.Eval
+import CprocVerif.Lemmas.EvalTree
 
 /-!
 # C04 — constant expressions fold to the value run-time evaluation would give
@@ -8,12 +8,11 @@ semantics (`Spec/CInt.lean`).  Every theorem quantifies over all operand values;
 range over all widths 8/16/32/64 of either signedness (`IntTy.Arith`), plus `_Bool` where stated
 (`IntTy.Valid`).  Floating point operations are fields of an arbitrary `FloatOps F`.
 
-Deviations of the code from the property (each with `_full` / `_counterexample` / `_partial`):
-* `cast_correct`: conversion of a constant to `_Bool` keeps the low 8 bits instead of testing `≠ 0`;
-* `eval_canon` / `addr_fold`: `C + (long)(P + C1)` makes `eval` overwrite a tree node (host UB);
-* (stated, not refutable over uninterpreted floats) `int → float` goes through `double`
-  (`fold_int_to_float_model`), a floating `?:` condition is never folded
-  (`cond_float_condition_unfolded`), an integer literal `≥ 2^64` saturates (`literal_overflow_saturates`).
+Five deviations found while stating these theorems were repaired in `/repo` (conversion to
+`_Bool`: 7c8b86a; `C + (long)(P + C1)`: 536afbc; `int → float` double rounding: 0457315; floating
+`?:` condition: b66d549; integer literal `≥ 2^64`: 23c06f0); the model is the repaired code and
+the statements below hold at full strength (`cast_correct`, `addr_fold_swapped`,
+`fold_int_to_float_model`, `cond_float_condition`, `literal_overflow_rejected`).
 -/
 
 namespace CprocVerif.C04
@@ -67,37 +66,16 @@ theorem unary_correct {t : IntTy} (ht : t.Arith) {a v : Int} (ha : InRange t a) 
 
 /-! ## 3. conversions between integer types -/
 
-/-- Full-strength statement: every conversion between integer types, `_Bool` included. -/
-def cast_correct_full : Prop :=
-  ∀ (f t : IntTy) (v : Int), f.Valid → t.Valid → InRange f v →
-    castConst ops (tyOf f) (tyOf t) (repr64 f v) = .const (tyOf t) (repr64 t (wrap t v))
-
-/-- `(_Bool)256` folds to 0 (C11 6.3.1.2: 1).  `_Bool b = 256;`, `char a[(_Bool)3]` (3 elements),
-`_Static_assert((_Bool)256 == 1, "")` (rejected) are the same defect. -/
-theorem cast_correct_counterexample : ¬ cast_correct_full ops := by
-  intro h
-  have := h IntTy.int IntTy.bool 256 (Or.inr (by decide)) (Or.inl rfl) (by decide)
-  rw [cast_to_bool_model] at this
-  revert this
-  decide
-
-/-- Every conversion to a non-`_Bool` integer type (from any integer type incl. `_Bool`). -/
-theorem cast_correct_partial {f t : IntTy} (ht : t.Arith) (v : Int) :
+/-- Every conversion between integer types, `_Bool` included (6.3.1.2: "0 if the value compares
+equal to 0, otherwise 1"; 6.3.1.3: modular).  `(_Bool)256` is 1. -/
+theorem cast_correct {f t : IntTy} (hf : f.Valid) (ht : t.Valid) {v : Int} (hv : InRange f v) :
     castConst ops (tyOf f) (tyOf t) (repr64 f v) = .const (tyOf t) (repr64 t (wrap t v)) :=
-  cast_correct_arith ops ht v
+  Eval.cast_correct ops hf ht hv
 
-/-- What the code computes for a conversion to `_Bool`: the value modulo 256. -/
-theorem cast_to_bool_model {f : IntTy} (v : Int) :
-    castConst ops (tyOf f) (tyOf IntTy.bool) (repr64 f v)
-      = .const (tyOf IntTy.bool) (repr64 IntTy.uchar (wrap IntTy.uchar v)) :=
-  Eval.cast_to_bool_model ops v
-
-/-- …which is the C value exactly when the low 8 bits decide: e.g. for the values 0 and 1. -/
-theorem cast_to_bool_partial {f : IntTy} {v : Int} (hv : v = 0 ∨ v = 1) :
-    castConst ops (tyOf f) (tyOf IntTy.bool) (repr64 f v)
-      = .const (tyOf IntTy.bool) (repr64 IntTy.bool (wrap IntTy.bool v)) := by
-  rw [Eval.cast_to_bool_model]
-  rcases hv with rfl | rfl <;> decide
+/-- Conversion of ANY constant (integer, floating, pointer) to `_Bool` is its truth value. -/
+theorem cast_to_bool (lty : Ty) (l : Nat) :
+    castConst ops lty (tyOf IntTy.bool) l = .const (tyOf IntTy.bool) (b2n (istrue ops lty l)) :=
+  castConst_bool ops lty l
 
 /-! ## 4. shift counts -/
 
@@ -151,35 +129,14 @@ theorem lor_land_zero_one (op : BinOp) (hop : op = .lor ∨ op = .land) (t : Ty)
 
 /-! ## 6. folding preserves the invariant -/
 
-def eval_canon_full : Prop := ∀ e : Expr, Canon e → Canon (eval ops e)
-
-/-- `int a[10]; long x = 5 + (long)&a[3];`: all leaves canonical, `eval` runs into the
-`(P + C1) ± C2` rule with swapped operands and overwrites the `(P + C1)` node (the compiler
-dereferences the integer 17 afterwards: SIGSEGV). -/
-def swapWitness : Expr :=
-  .binary .add (.int 8 true) (.const (.int 8 true) 5)
-    (.cast (.int 8 true)
-      (.binary .add .ptr (.unary .addr .ptr (.obj .other "a")) (.const (.int 8 false) 12)))
-
-theorem swapWitness_canon : Canon swapWitness := by
-  refine ⟨by simp [Ty.Wf], ⟨by simp [Ty.Wf], 5, by decide, by decide⟩, Or.inl ⟨by simp [Ty.Wf], trivial, ⟨trivial, trivial⟩,
-    Or.inl ⟨by simp [Ty.Wf], 12, by decide, by decide⟩⟩⟩
-
-theorem swapWitness_bad : eval ops swapWitness = .bad := by
-  simp [swapWitness, eval, evalAddSub, Expr.isFail, Expr.isBinary, Expr.ty]
-
-theorem eval_canon_counterexample : ¬ eval_canon_full ops := by
-  intro h
-  have := h swapWitness swapWitness_canon
-  rw [swapWitness_bad] at this
-  exact this
-
-/-- Folding preserves `Canon` through arbitrary nesting, unless `eval` hits host UB. -/
-theorem eval_canon_partial (e : Expr) (h : Canon e) (hb : eval ops e ≠ .bad) : Canon (eval ops e) :=
+/-- Folding preserves `Canon` through arbitrary nesting (induction on the expression).  `Expr.bad`
+stands for `fatal("internal error …")`, which only ill-typed trees (e.g. `%` on a floating
+node) can reach. -/
+theorem eval_canon_of_ne_bad (e : Expr) (h : Canon e) (hb : eval ops e ≠ .bad) : Canon (eval ops e) :=
   (Eval.eval_canon ops e h).resolve_left hb
 
-/-- On the integer fragment (no pointers, no floats) host UB never arises, so folding preserves
-the invariant unconditionally and the result is again in the fragment with the same type. -/
+/-- On the integer fragment `eval` never fails, so folding preserves the invariant
+unconditionally and the result is again in the fragment with the same type. -/
 theorem eval_canon (e : Expr) (hi : IntFrag e) (h : Canon e) :
     Canon (eval ops e) ∧ IntFrag (eval ops e) ∧ (eval ops e).ty = e.ty := by
   obtain ⟨h1, h2⟩ := eval_intFrag ops e hi
@@ -192,44 +149,43 @@ theorem eval_canon (e : Expr) (hi : IntFrag e) (h : Canon e) :
 defined; `||`/`&&` do not evaluate a decided right operand), `eval` returns the constant
 `repr64 t v` of the expression's type `t`, and `v ∈ range t`.  Induction over the expression. -/
 theorem eval_correct (e : Expr) (hi : IntFrag e) (hc : Canon e) {v : Int} (hv : evalC e = some v) :
-    ∃ sz sg, e.ty = .int sz sg ∧ InRange (ityOf sz sg) v ∧
-      eval ops e = .const (.int sz sg) (repr64 (ityOf sz sg) v) :=
+    ∃ t : IntTy, e.ty.ity? = some t ∧ InRange t v ∧ eval ops e = .const e.ty (repr64 t v) :=
   Eval.eval_correct ops e hi hc v hv
 
 /-- The constant shortcut of `condexpr`: an integer constant condition selects the branch C selects. -/
 theorem cond_shortcut_correct (c l r : Expr) (t : Ty) (hi : IntFrag c) (hc : Canon c) {v : Int}
     (hv : evalC c = some v) :
     condexpr ops c l r t = convert (if v ≠ 0 then l else r) t := by
-  obtain ⟨sz, sg, hty, hr, he⟩ := Eval.eval_correct ops c hi hc v hv
-  have hw : (Ty.int sz sg).Wf := by rw [← hty]; exact canon_ty_wf hc hi
-  have h0 : repr64 (ityOf sz sg) v ≠ 0 ↔ v ≠ 0 :=
-    not_congr (repr64_eq_zero (ityOf_arith hw) hr)
-  simp only [condexpr, he]
-  by_cases hz : v = 0
-  · have : repr64 (ityOf sz sg) v = 0 := (repr64_eq_zero (ityOf_arith hw) hr).2 hz
-    simp [hz, repr64_zero]
-  · simp [hz, h0.2 hz]
+  obtain ⟨tc, hty, hr, he⟩ := Eval.eval_correct ops c hi hc v hv
+  have hw : c.ty.Wf := canon_ty_wf hc hi
+  have hist := istrue_int ops (ity?_valid hw hty) hr
+  rw [tyOf_ity? hw hty] at hist
+  simp only [condexpr, he, isInt_of_ity? hty, true_or, if_true, hist]
+  by_cases hz : v = 0 <;> simp [hz]
 
-/-- A floating constant condition is NOT folded (`0.5 ? 1 : 2` stays an `EXPRCOND`, which no
-constant context accepts): a valid arithmetic constant expression is rejected, not mis-evaluated. -/
-theorem cond_float_condition_unfolded (c l r : Expr) (t : Ty) (sz u : Nat)
+/-- A floating constant condition is folded by its truth value (`0.5 ? 1 : 2` is 1). -/
+theorem cond_float_condition (c l r : Expr) (t : Ty) (sz u : Nat)
     (h : eval ops c = .const (.flt sz) u) :
-    condexpr ops c l r t = .cond t (.const (.flt sz) u) l r ∧
-      eval ops (condexpr ops c l r t) = .cond t (.const (.flt sz) u) l r := by
-  simp [condexpr, h, eval]
+    condexpr ops c l r t = convert (if istrue ops (.flt sz) u then l else r) t := by
+  simp [condexpr, h, Ty.isFlt]
 
 /-! ## 8. `intconstexpr` -/
 
 /-- `intconstexpr(s, allowneg)` yields the 64-bit representation; with `allowneg = false` it
 rejects exactly the negative values (an `unsigned long` value `≥ 2^63` is not negative). -/
-theorem intconstexpr_sign_rule (e : Expr) {t : IntTy} (ht : t.Arith) {v : Int} (hv : InRange t v)
+theorem intconstexpr_sign_rule (e : Expr) {t : IntTy} (ht : t.Valid) {v : Int} (hv : InRange t v)
     (he : eval ops e = .const (tyOf t) (repr64 t v)) (allowneg : Bool) :
     intconstexpr ops e allowneg = if allowneg = false ∧ v < 0 then none else some (repr64 t v) := by
   have hsh : ¬ repr64 t v >>> 63 = 0 ↔ (2 : Int) ^ 63 ≤ (repr64 t v : Int) := by
     rw [Nat.shiftRight_eq_div_pow]; simp only [repr64]; omega
-  simp only [intconstexpr, he, tyOf_arith ht]
+  simp only [intconstexpr, he, tyOf_isInt, if_true]
   cases allowneg <;> simp only [Bool.not_false, Bool.not_true, Bool.true_and, Bool.false_and,
     Bool.false_eq_true, if_false, true_and, false_and, reduceCtorEq]
+  rcases ht with rfl | ht
+  · have : ¬ v < 0 := by simp [InRange, minVal, maxVal, IntTy.bool] at hv; omega
+    simp [this, tyOf_bool, Ty.isSigned]
+  rw [tyOf_arith ht]
+  simp only [Ty.isSigned]
   cases hs : t.signed
   · have : ¬ v < 0 := by
       arith_split ht <;> simp [InRange, minVal, maxVal] at hv hs <;> omega
@@ -248,12 +204,12 @@ theorem intconstexpr_sign_rule (e : Expr) {t : IntTy} (ht : t.Arith) {v : Int} (
 unfolded; and for integer operands `eval` never calls `binary` where the host operation is
 undefined (all sizes, all bit patterns). -/
 theorem undefined_left_unfolded (op : BinOp) :
-    ((op = .div ∨ op = .mod) → ∀ sz sg l ty, foldBin ops op (.int sz sg) l 0 ty = .unfolded) ∧
+    ((op = .div ∨ op = .mod) → ∀ lty, lty.isInt = true → ∀ l ty, foldBin ops op lty l 0 ty = .unfolded) ∧
     ((op = .div ∨ op = .mod) → ∀ sz ty, foldBin ops op (.int sz true) (2 ^ 63) (W - 1) ty = .unfolded) ∧
-    ((op ≠ .lor ∧ op ≠ .land) → ∀ sz sg l r ty, foldBin ops op (.int sz sg) l r ty ≠ .hostUB) :=
-  ⟨fun h sz sg l ty => foldBin_div_zero ops op h sz sg l ty,
+    ((op ≠ .lor ∧ op ≠ .land) → ∀ lty, lty.isInt = true → ∀ l r ty, foldBin ops op lty l r ty ≠ .hostUB) :=
+  ⟨fun h lty hl l ty => foldBin_div_zero ops op h hl l ty,
    fun h sz ty => foldBin_min_neg_one ops op h sz ty,
-   fun h sz sg l r ty => foldBin_no_hostUB ops op h sz sg l r ty⟩
+   fun h lty hl l r ty => foldBin_no_hostUB ops op h hl l r ty⟩
 
 /-- …and what C leaves undefined for these operators is exactly `none` in the spec. -/
 theorem spec_div_zero_undefined (t : IntTy) (a : Int) :
@@ -269,7 +225,7 @@ theorem castInt_8 (sg : Bool) {x : Nat} (hx : x < W) : castInt 8 sg x = x := by
 
 /-- `(P + C1) ± C2 → P + (C1 ± C2)` with 64-bit offsets (all that `mkbinaryexpr` produces): the
 new offset is `C1 ± C2` modulo `2^64`, i.e. the address arithmetic of the target. -/
-theorem addr_fold_partial (P : Expr) (ty : Ty) (s1 s2 : Bool) {c1 c2 : Nat} (h1 : c1 < W) (h2 : c2 < W) :
+theorem addr_fold (P : Expr) (ty : Ty) (s1 s2 : Bool) {c1 c2 : Nat} (h1 : c1 < W) (h2 : c2 < W) :
     evalAddSub ops .add ty (.binary .add .ptr P (.const (.int 8 s1) c1)) (.const (.int 8 s2) c2)
       = .binary .add ty P (.const (.int 8 s2) ((c1 + c2) % W)) ∧
     evalAddSub ops .sub ty (.binary .add .ptr P (.const (.int 8 s1) c1)) (.const (.int 8 s2) c2)
@@ -279,11 +235,20 @@ theorem addr_fold_partial (P : Expr) (ty : Ty) (s1 s2 : Bool) {c1 c2 : Nat} (h1 
   constructor <;>
     simp [evalAddSub, Expr.isBinary, Eval.binary, binaryRaw, Eval.cast, castInt_8, hm1, hm2]
 
-def addr_fold_full : Prop :=
-  ∀ e : Expr, Canon e → eval ops e ≠ .bad
+/-- The commuted form `C2 + (P + C1)` (536afbc: the operands of the node are swapped too). -/
+theorem addr_fold_swapped (P : Expr) (ty : Ty) (s1 s2 : Bool) {c1 c2 : Nat} (h1 : c1 < W) (h2 : c2 < W) :
+    evalAddSub ops .add ty (.const (.int 8 s2) c2) (.binary .add .ptr P (.const (.int 8 s1) c1))
+      = .binary .add ty P (.const (.int 8 s2) ((c1 + c2) % W)) := by
+  have hm1 : (c1 + c2) % W < W := Nat.mod_lt _ (by decide)
+  simp [evalAddSub, Expr.isBinary, Eval.binary, binaryRaw, Eval.cast, castInt_8, hm1]
 
-theorem addr_fold_counterexample : ¬ addr_fold_full ops :=
-  fun h => h swapWitness swapWitness_canon (swapWitness_bad ops)
+/-- `int a[10]; long x = 5 + (long)&a[3];` folds to `$a + 17`. -/
+example : eval ops (.binary .add (.int 8 true) (.const (.int 8 true) 5)
+    (.cast (.int 8 true)
+      (.binary .add .ptr (.unary .addr .ptr (.obj .other "a")) (.const (.int 8 false) 12))))
+    = .binary .add (.int 8 true) (.unary .addr .ptr (.obj .other "a")) (.const (.int 8 true) 17) := by
+  simp [eval, evalAddSub, Expr.isFail, Expr.isBinary, Expr.ty, Eval.binary, binaryRaw, Eval.cast]
+  decide
 
 /-- `&*e` is `e`; `&"string"` becomes the address of the pooled object. -/
 theorem addr_deref (t t' : Ty) (e : Expr) (h : (eval ops e).isFail = false) :
@@ -319,17 +284,20 @@ theorem fold_float_cmp (sz : Nat) (l r : Nat) :
     rw [wrap_of_inRange (Or.inr int_arith) (b2i_inRange c), repr64_b2i]
   refine ⟨?_, ?_, ?_, ?_⟩ <;> (rw [← key]; exact binary_cmp ops rfl)
 
-/-- int → floating: the value (signed or unsigned reading per the operand type) is converted to
-`double`, then normalised to the node type.  For a `double` target this is the run-time
-conversion; for `float` it is `(float)(double)i`, which differs from `(float)i` for some 64-bit
-`i` (double rounding; e.g. `float f = 1152921573326323713L;`). -/
+/-- int → floating: the value (signed or unsigned reading per the operand type) is converted
+directly to the target format (`(float)i` for a 4-byte type, `(double)i` otherwise: one rounding,
+as the run-time `sltof/ultof`, `sltod/ultod`), then normalised (a no-op on such a value). -/
 theorem fold_int_to_float_model {f : IntTy} (hf : f.Arith) (sz : Nat) {v : Int} (hv : InRange f v) :
     castConst ops (tyOf f) (.flt sz) (repr64 f v)
-      = .const (.flt sz) (Eval.cast ops (.flt sz) (ops.bits (ops.ofInt v))) := by
-  rw [tyOf_arith hf]
-  cases hs : f.signed
-  · simp only [castConst, Bool.false_eq_true, if_false, repr64_unsigned hf hv hs]
-  · simp only [castConst, if_true, toI_repr64 hf hv hs]
+      = .const (.flt sz) (Eval.cast ops (.flt sz)
+          (ops.bits (if Ty.flt sz = .flt 4 then ops.ofIntF32 v else ops.ofInt v))) := by
+  have hval : (if (tyOf f).isSigned = true then toI (repr64 f v) else ((repr64 f v : Nat) : Int)) = v := by
+    rw [tyOf_arith hf]
+    cases hs : f.signed
+    · simp only [Ty.isSigned, Bool.false_eq_true, if_false]; exact repr64_unsigned hf hv hs
+    · simp only [Ty.isSigned, if_true]; exact toI_repr64 hf hv hs
+  have h1 : ¬ (Ty.flt sz = Ty.bool) := by simp
+  simp only [castConst, if_neg h1, tyOf_isInt, Ty.isFlt, and_self, if_true, hval]
 
 /-- floating → int: rejected (`error`) outside `[-2^63, 2^63)` resp. `[0, 2^64)` (NaN fails both
 comparisons), otherwise the truncated value is normalised to the target type. -/
@@ -340,7 +308,10 @@ theorem fold_float_to_int_model (fsz : Nat) {t : IntTy} (ht : t.Arith) (l : Nat)
       then .const (tyOf t) (repr64 t (wrap t (ops.toInt (ops.ofBits l))))
       else .error := by
   rw [tyOf_arith ht]
-  simp only [castConst, Eval.cast, cast_ofI ht]
+  have h1 : ¬ (Ty.int (t.bits / 8) t.signed = Ty.bool) := by simp
+  have h2 : ¬ ((Ty.flt fsz).isInt = true ∧ (Ty.int (t.bits / 8) t.signed).isFlt = true) := by simp [Ty.isFlt]
+  simp only [castConst, if_neg h1, if_neg h2, Ty.isFlt, Ty.isInt, and_self, if_true, Ty.isSigned,
+    Eval.cast, cast_ofI ht]
   cases t.signed <;> simp
 
 end
